@@ -13,7 +13,7 @@ wrap_namespace(ffto.__dict__, globals())
 # e.g. by replacing fftn with repeated calls to 1d fft along each axis
 def fft_grad(get_args, fft_fun, ans, x, *args, **kwargs):
     axes, s, norm = get_args(x, *args, **kwargs)
-    check_no_repeated_axes(axes)
+    check_no_repeated_axes(axes, anp.ndim(x))
     vs = vspace(x)
     return lambda g: match_complex(x, truncate_pad(fft_fun(g, *args, **kwargs), vs.shape))
 
@@ -32,7 +32,7 @@ def rfft_grad(get_args, irfft_fun, ans, x, *args, **kwargs):
     axes, s, norm = get_args(x, *args, **kwargs)
     vs = vspace(x)
     gvs = vspace(ans)
-    check_no_repeated_axes(axes)
+    check_no_repeated_axes(axes, anp.ndim(x))
     if s is None:
         s = [vs.shape[i] for i in axes]
     check_even_shape(s)
@@ -55,7 +55,7 @@ def irfft_grad(get_args, rfft_fun, ans, x, *args, **kwargs):
     axes, gs, norm = get_args(x, *args, **kwargs)
     vs = vspace(x)
     gvs = vspace(ans)
-    check_no_repeated_axes(axes)
+    check_no_repeated_axes(axes, anp.ndim(x))
     if gs is None:
         gs = [gvs.shape[i] for i in axes]
     check_even_shape(gs)
@@ -108,8 +108,8 @@ defvjp(truncate_pad, lambda ans, x, shape: lambda g: match_complex(x, truncate_p
 
 
 ## TODO: could be made less stringent, to fail only when repeated axis has different values of s
-def check_no_repeated_axes(axes):
-    axes_set = set(axes)
+def check_no_repeated_axes(axes, ndim):
+    axes_set = {axis % ndim for axis in axes}  # -1 and ndim - 1 are the same axis
     if len(axes) != len(axes_set):
         raise NotImplementedError("FFT gradient for repeated axes not implemented.")
 
